@@ -279,9 +279,11 @@ func runPair(c *fw.Ctx, idx int, x, y univ.SNode, nested bool) {
 	}
 	zf := reflect.StructField{Name: "Z", Type: reflect.TypeOf(int64(0)), Tag: `json:"z"`}
 	if nested {
-		rs = ref.Record("Outer", ref.F("r", ref.Record("Inner", inner...)), ref.F("z", ref.Prim("long")))
+		rs = ref.Record("Outer", ref.F("r", ref.Record("Inner", inner...)), ref.F("z", ref.Prim("long")), ref.F("Z", ref.Prim("string")))
 	} else {
-		rs = ref.Record("Outer", append(inner, ref.F("z", ref.Prim("long")))...)
+		// the last column, "Z", differs from "z" only in case: field names are matched exactly, so no target here
+		// has a field for it and it is always skipped
+		rs = ref.Record("Outer", append(inner, ref.F("z", ref.Prim("long")), ref.F("Z", ref.Prim("string")))...)
 		fields = append(innerFields, zf)
 	}
 	dx, dy := poolDatums(x), poolDatums(y)
@@ -290,9 +292,9 @@ func runPair(c *fw.Ctx, idx int, x, y univ.SNode, nested bool) {
 	for i := 0; i < 3; i++ {
 		a, b := dx[i%len(dx)], dy[(i+1)%len(dy)]
 		if nested {
-			recs = append(recs, ref.DRecord(ref.DRecord(a, b), ref.DLong(sentinel+int64(i))))
+			recs = append(recs, ref.DRecord(ref.DRecord(a, b), ref.DLong(sentinel+int64(i)), ref.DString("twin")))
 		} else {
-			recs = append(recs, ref.DRecord(a, b, ref.DLong(sentinel+int64(i))))
+			recs = append(recs, ref.DRecord(a, b, ref.DLong(sentinel+int64(i)), ref.DString("twin")))
 		}
 	}
 	// encodings: every serialisation with at most 2 writer-side deviations, per record; files use the k-th variant of each
@@ -436,7 +438,7 @@ func init() {
 		ID:    "C04",
 		Level: "exploration",
 		Rule: func(tier string) string {
-			return "(1) codec level: for every schema node of the C03 universe, every datum and every legal serialisation (first 256 per datum in quick; thorough: all at depth<=1, first 20000 at depth 2, first 256 at depth 3) followed by a 3-byte tail, ReadBuf.Len() after Codec.Read, after reading through a record codec whose struct lacks the field (skip path), and after Codec.Skip must all equal the reference decoder's consumption; (2) file level: writer schemas record{a:X, b:Y, z:long} for every ordered pair (X,Y) of an 18-schema pool (primitives, fixed, arrays/maps incl. nested and nullable items, unions null-first/null-second/multi-branch, records, arrays of records; and, skip-only, a 130-branch union with every branch selected so that two-byte selectors occur) and the nested form record{r:record{a:X,b:Y}, z}; 3-record reference-written files in every encoding variant with <=2 writer-side deviations, rotating over block partitions and codecs; every projection of the full target struct: every subset of fields deleted × every permutation of the rest × {nothing, or one added field of kind int64/string/*int64/[]string/map[string]int64/struct, an embedded struct whose field names collide with the columns (before and after the kept fields), an unexported field tagged with a column's name}; oracle: remaining fields equal gv.Expect, added fields zero, same record count, nil error (the trailing sync check makes a mis-sized skip visible); non-trivial = a distinct (file, projection) or (encoding) that reached the comparison"
+			return "(1) codec level: for every schema node of the C03 universe, every datum and every legal serialisation (first 256 per datum in quick; thorough: all at depth<=1, first 20000 at depth 2, first 256 at depth 3) followed by a 3-byte tail, ReadBuf.Len() after Codec.Read, after reading through a record codec whose struct lacks the field (skip path), and after Codec.Skip must all equal the reference decoder's consumption; (2) file level: writer schemas record{a:X, b:Y, z:long, Z:string} (the column Z differs from z only in case and has no counterpart in any target) for every ordered pair (X,Y) of an 18-schema pool (primitives, fixed, arrays/maps incl. nested and nullable items, unions null-first/null-second/multi-branch, records, arrays of records; and, skip-only, a 130-branch union with every branch selected so that two-byte selectors occur) and the nested form record{r:record{a:X,b:Y}, z}; 3-record reference-written files in every encoding variant with <=2 writer-side deviations, rotating over block partitions and codecs; every projection of the full target struct: every subset of fields deleted × every permutation of the rest × {nothing, or one added field of kind int64/string/*int64/[]string/map[string]int64/struct, an embedded struct whose field names collide with the columns (before and after the kept fields), an unexported field tagged with a column's name}; oracle: remaining fields equal gv.Expect, added fields zero, same record count, nil error (the trailing sync check makes a mis-sized skip visible); non-trivial = a distinct (file, projection) or (encoding) that reached the comparison"
 		},
 		Assumptions: []string{
 			"the expected value of every remaining field is computed by gv.Expect from the datum (stronger than, and implying, the differential 'same as the full decode')",
